@@ -62,7 +62,7 @@ Print Assumptions C02_check_agrees.
    whenever the model does not Crash.  So the theorems above speak about the code as it is now for these functions;
    put_obj/remove_obj/remove_min, which call them, stay tied by the lockstep runs. *)
 From Coq Require Import ZArith.
-From QV.Tree Require Import TreeHeap TreeHeapProofs TreeHeapMrl TreeHeapFix TreeHeapRmin TreeHeapPut TreeHeapFind.
+From QV.Tree Require Import TreeHeap TreeHeapProofs TreeHeapMrl TreeHeapFix TreeHeapRmin TreeHeapPut TreeHeapFind TreeHeapCheck.
 From QV.Gen Require Import TreeOps.
 Theorem C02_c_helpers_refine :
   refines c_flip_color flip /\ refines c_rotate_left rotl /\ refines c_rotate_right rotr /\
@@ -103,6 +103,12 @@ Theorem C02_c_find_obj : forall (kc : positive -> Z) (k : positive) (t : tree po
   c_find_obj kc (S (size t)) p false h = Ok (find (fun (_ x : positive) => zcmp (kc x)) t k, h) /\
   forall fuel, c_find_obj kc fuel p true h = Ok (None, h).
 Proof. exact c_find_obj_ok. Qed.
+(* node_check_red() / node_check_llrb(), the recursive checkers behind return codes 2 and 4 of qtreetbl_check(): the translated
+   text computes the model's check_red / check_llrb (the functions C02_check_agrees is about) and changes nothing.
+   node_check_black() returns its path length through an int* and stays transcribed. *)
+Theorem C02_c_checkers : forall (t : tree positive) h p, rep h p t ->
+  c_node_check_red (S (size t)) p h = Ok (check_red t, h) /\ c_node_check_llrb (S (size t)) p h = Ok (check_llrb t, h).
+Proof. exact c_checkers_ok. Qed.
 (* non-vacuity: a three-node heap with a red right child; fix() rotates it to the left *)
 Example C02_c_helpers_nonvacuous :
   let h : heap := fun j => match j with 1%positive => Some (mkcell false (Some 2%positive) (Some 3%positive))
@@ -119,3 +125,4 @@ Print Assumptions C02_c_find_min_max.
 Print Assumptions C02_c_remove_min_refines.
 Print Assumptions C02_c_put_obj_refines.
 Print Assumptions C02_c_find_obj.
+Print Assumptions C02_c_checkers.
